@@ -22,7 +22,8 @@ PROPS['C02']={
  'bounds_statement':'in_toto_verify executed from MIR end-to-end over a ghost link directory: every subset of layout keys and step pubkeys, every u32 threshold, every population of link files (per key absent/present), every signature validity assignment, every hash-map order, within the shape bound.',
  'assumptions':PIPE_ASSUME,
  'obligations':[
-   {'name':'step_authorization','module':'harness.C02','cls':'StepAuthorization','quick':{'nfun':2,'nsig':2},'thorough':{'nfun':3,'nsig':2,'unknown_pubkey':True}},
+   {'name':'step_authorization','module':'harness.C02','cls':'StepAuthorization','quick':{'nfun':2,'nsig':2},'thorough':{'nfun':3,'nsig':1,'unknown_pubkey':True}},
+   {'name':'step_authorization_two_signatures','module':'harness.C02','cls':'StepAuthorization','tier_only':'thorough','quick':{},'thorough':{'nfun':2,'nsig':2,'unknown_pubkey':True}},
    {'name':'two_steps','module':'harness.C02','cls':'StepAuthorization','tier_only':'thorough','quick':{},'thorough':{'nfun':2,'nsig':1,'two_steps':True}},
    {'name':'duplicate_step_names','module':'harness.C02','cls':'StepAuthorization','quick':{'nfun':2,'nsig':1,'same_name':True},'thorough':{'nfun':2,'nsig':2,'same_name':True}},
  ]}
@@ -87,7 +88,7 @@ PROPS['C20']={
 HOOK_COMMITS=['5414ff1','7156184']
 
 PROPS['C03']={
- 'bounds_statement':'rulelib::apply_rules_on_link from MIR vs. an independent reference model of the specification\'s queue algorithm (oracles/rules.py): every rule of a catalog (all seven kinds; literal, *, directory, ?, class and uninterpretable patterns; source/destination prefixes with and without trailing slash; missing referenced step) followed by a revealing tail rule, over every presence pattern of a 3-path universe with free digest bytes; sequences of two catalog rules in the thorough tier.',
+ 'bounds_statement':'rulelib::apply_rules_on_link from MIR vs. an independent reference model of the specification\'s queue algorithm (oracles/rules.py): every rule of a catalog (all seven kinds; literal, *, directory, ?, class and uninterpretable patterns; source/destination prefixes with and without trailing slash; missing referenced step) followed by a revealing tail rule, over every presence pattern of a 3-path universe with free digest bytes; sequences of two catalog rules in the thorough tier (on a 2-path universe).',
  'assumptions':UNIT_ASSUME+['glob::Pattern::{new,matches} modelled for the portable subset (*, **, ?, classes; * and ? match "/", as with the crate\'s default MatchOptions); path_clean::clean modelled (Plan 9 cleanname)',
                             'reference model = in-toto specification v0.9 section 4.3.3 / reference implementation verify_item_rules, fnmatch-style matching'],
  'obligations':[
@@ -96,8 +97,8 @@ PROPS['C03']={
   {'name':'match_pairs','module':'harness.C03','cls':'Rules','quick':{'group':'pairs'},'thorough':{'group':'pairs'}},
   {'name':'match_algorithms','module':'harness.C03','cls':'Rules','quick':{'group':'algs','rate':4},'thorough':{'group':'algs','rate':2}},
   {'name':'inspection_item','module':'harness.C03','cls':'Rules','quick':{'group':'match','seq':1,'item':'inspection','rate':200},'thorough':{'group':'basic','seq':1,'item':'inspection'}},
-  {'name':'basic_seq2','module':'harness.C03','cls':'Rules','tier_only':'thorough','quick':{},'thorough':{'group':'basic','seq':2,'rate':2000}},
-  {'name':'match_seq2','module':'harness.C03','cls':'Rules','tier_only':'thorough','quick':{},'thorough':{'group':'match','seq':2,'rate':2000}},
+  {'name':'basic_seq2','module':'harness.C03','cls':'Rules','tier_only':'thorough','quick':{},'thorough':{'group':'basic','seq':2,'rate':2000,'small':True}},
+  {'name':'match_seq2','module':'harness.C03','cls':'Rules','tier_only':'thorough','quick':{},'thorough':{'group':'match','seq':2,'rate':2000,'small':True}},
  ]}
 
 PROPS['C10']={
